@@ -24,25 +24,54 @@ import (
 // the graph reachable from an entrypoint is registered; LocalPkgPaths() lists
 // the module's loaded packages in sorted order, flagged direct iff requested;
 // the sum table has an entry for every local package.
-func Verif_C13_Imports(n int) {
-	all := []string{"pa", "pb", "pc", "pd", "pe"}
+func Verif_C13_Imports(n int) { vImports(n, false) }
+
+// Verif_C13_ImportsChain: a long chain pa -> pb -> ... (n up to 14 packages, only
+// the first requested) plus one more edge and one more requested package, each
+// chosen by case split over every possibility.
+func Verif_C13_ImportsChain(n int) { vImports(n, true) }
+
+func vImports(n int, sparse bool) {
+	all := []string{"pa", "pb", "pc", "pd", "pe", "pf", "pg", "ph", "pi", "pj", "pk", "pl", "pm", "pn"}
 	verifsym.Assume(n <= len(all))
+	if !sparse {
+		verifsym.Assume(n <= 5)
+	}
 	names := all[:n]
 	mod := "example.com/m"
 	edge := make([][]bool, n)
-	for i := range edge {
-		edge[i] = make([]bool, n)
-		for j := i + 1; j < n; j++ {
-			edge[i][j] = verifsym.Bool()
-		}
-	}
 	direct := make([]bool, n)
-	any := false
-	for i := range direct {
-		direct[i] = verifsym.Bool()
-		any = any || direct[i]
+	if sparse {
+		verifsym.Assume(n >= 3)
+		for i := range edge {
+			edge[i] = make([]bool, n)
+			if i+1 < n {
+				edge[i][i+1] = true
+			}
+		}
+		// the chain may be cut at one place (then the tail is only reachable through the extra edge / request)
+		if cut := verifsym.IntRange(0, n-1); cut+1 < n {
+			edge[cut][cut+1] = false
+		}
+		ei := verifsym.IntRange(0, n-3)
+		ej := verifsym.IntRange(ei+2, n-1)
+		edge[ei][ej] = true
+		direct[0] = true
+		direct[verifsym.IntRange(0, n-1)] = true
+	} else {
+		for i := range edge {
+			edge[i] = make([]bool, n)
+			for j := i + 1; j < n; j++ {
+				edge[i][j] = verifsym.Bool()
+			}
+		}
+		any := false
+		for i := range direct {
+			direct[i] = verifsym.Bool()
+			any = any || direct[i]
+		}
+		verifsym.Assume(any)
 	}
-	verifsym.Assume(any)
 
 	var patterns []string
 	for i, d := range direct {
